@@ -1257,3 +1257,58 @@ func genBinCopy(_ *rand.Rand, id string) *Case {
 }
 
 func init() { generators["bincopy"] = genBinCopy }
+
+// genAuth (C01): clear-text authentication configured; accepted / rejected / failing validator
+// (decided by the password's content), every kind of message in place of the password, and a
+// continuation that would be served if the gate leaked.
+func genAuth(r *rand.Rand, id string) *Case {
+	c := baseCase(id, "auth")
+	c.Auth = true
+	c.L = []int{0, 128}[r.Intn(2)]
+	user := pick(r, []string{"alice", "bob", ""})
+	kv := [][2]string{{"user", user}}
+	if r.Intn(2) == 0 {
+		kv = append(kv, [2]string{"database", pick(r, []string{"db", ""})})
+	}
+	in := startup(196608, kv, true)
+	switch k := r.Intn(16); {
+	case k < 4:
+		in = append(in, msgPassword(pick(r, []string{"ok", "okay", "ok\xff"}))...)
+	case k < 8:
+		in = append(in, msgPassword(pick(r, []string{"bad", "", "o", "OK", "wrong password", "k"}))...)
+	case k < 10:
+		in = append(in, msgPassword(pick(r, []string{"fail", "failure", "faileof"}))...)
+	case k < 11: // another message type carrying a valid-looking password
+		in = append(in, typed([]byte("QPXSdcfBE\x00z")[r.Intn(11)], cstr("ok"))...)
+	case k < 12: // no NUL terminator
+		in = append(in, typed('p', []byte("ok"))...)
+	case k < 13: // oversized (or just large) password message
+		sz := 200
+		in = append(in, typed('p', append([]byte("ok"), make([]byte, sz)...))...)
+	case k < 14: // declared length below the minimum / truncated header
+		in = append(in, typedLen('p', uint32(r.Intn(4)), nil)...)
+	case k < 15: // incomplete password message: the server must wait, not proceed
+		m := msgPassword("ok")
+		in = append(in, m[:1+r.Intn(len(m)-1)]...)
+		c.In = in
+		return c
+	default: // nothing at all after the startup packet; sometimes the client also hangs up
+		c.In = in
+		c.EOF = r.Intn(2) == 0
+		return c
+	}
+	// continuation
+	msgs := genSessionMsgs(r, r.Intn(6), 100, false)
+	msgs = append(msgs, msgQuery(probeQuery("LEAK", 0)))
+	in = append(in, flatten(msgs)...)
+	c.In = in
+	if r.Intn(2) == 0 {
+		c.Cuts = randCuts(r, len(in))
+	}
+	if r.Intn(3) == 0 {
+		c.MW = "o"
+	}
+	return c
+}
+
+func init() { generators["auth"] = genAuth }
